@@ -183,6 +183,8 @@ type fileState struct {
 	hubCompacted bool  // hub compaction consumed the file: content lives in a compacted output
 	compactedSha string
 	receiptMark  bool // MarkCompacted has been applied for it
+	markSeq      int64
+	forgot       string // how a reconcile came to forget the receipt of a hub-compacted file
 	active       int  // hub-side Receive calls for this path currently running
 	overlap      bool // two Receive calls for this path overlapped in time at least once
 }
@@ -508,7 +510,10 @@ func (w *world) onHubCommit(f *fileState) {
 			hfail("index lookup: %v", err)
 		}
 		if hf, ok := held[f.path]; !ok {
-			mark = "receipt-forgotten-by-reconcile-in-delete-to-mark-window"
+			mark = "receipt-missing"
+			if f.forgot != "" {
+				mark = "receipt-forgotten-by-reconcile-" + f.forgot
+			}
 		} else if hf.Compacted {
 			mark = "receipt-marked-compacted"
 		}
@@ -640,8 +645,10 @@ func (w *world) hubCompact(files []*fileState) {
 	if err := w.index.MarkCompacted(context.Background(), spokeID, paths); err != nil {
 		hfail("MarkCompacted: %v", err)
 	}
+	w.seq++
 	for _, f := range consumed {
 		f.receiptMark = true
+		f.markSeq = w.seq
 	}
 	simrt.Event("HUB-COMPACT-MARKED %d", len(paths))
 }
@@ -749,7 +756,32 @@ func (t *transport) Reconcile(ctx context.Context, hub string, pending []*edgesy
 	}
 	var res *edgesync.ReconcileResult
 	var err error
-	w.hubCall("hub-reconcile", func() { res, err = w.reconciler.Reconcile(context.Background(), spokeID, entries) })
+	w.hubCall("hub-reconcile", func() {
+		w.seq++
+		start := w.seq
+		res, err = w.reconciler.Reconcile(context.Background(), spokeID, entries)
+		// bookkeeping for fingerprints: did this reconcile drop the receipt of a
+		// file the hub's compaction consumed, and was the receipt already marked
+		// compacted when the reconcile began?
+		for _, e := range entries {
+			f := w.byPath[e.Path]
+			if f == nil || !f.hubCompacted || f.forgot != "" {
+				continue
+			}
+			held, lerr := w.index.Lookup(context.Background(), spokeID, []string{f.path})
+			if lerr != nil {
+				hfail("index lookup: %v", lerr)
+			}
+			if _, ok := held[f.path]; !ok {
+				if f.receiptMark && f.markSeq < start {
+					f.forgot = "after-receipt-was-marked-compacted"
+				} else {
+					f.forgot = "in-delete-to-mark-window"
+				}
+				simrt.Event("RECONCILE-FORGOT-COMPACTED #%d %s", f.idx, f.forgot)
+			}
+		}
+	})
 	if fault == "drop-after" {
 		w.faults++
 		simrt.Count("fault.reconcile_drop_after", 1)
@@ -889,7 +921,13 @@ func (t *transport) PutFile(ctx context.Context, hub string, e *edgesync.LedgerE
 	}
 	if fl.Kind == "linger" {
 		// the client gives up (timeout) while the hub is still working on the request
-		h := simrt.GoOn("hub-recv-linger", w.hubNode, call)
+		delay := []time.Duration{0, 0, 100 * time.Microsecond, time.Millisecond, 10 * time.Millisecond, 100 * time.Millisecond}[fl.Xor%6]
+		h := simrt.GoOn("hub-recv-linger", w.hubNode, func() {
+			if delay > 0 {
+				simrt.Sleep(delay) // the request is still queued / the hub is slow
+			}
+			call()
+		})
 		w.hubTasks = append(w.hubTasks, h)
 		return nil, errors.New("edgesync: file request: context deadline exceeded (Client.Timeout exceeded while awaiting headers)")
 	}
